@@ -27,14 +27,17 @@ inductive Obs
 def St.free (s : St) : Nat := s.cap - (s.wpos - s.rcache)
 
 /-- micro-steps an API call performs in state `s` -/
-def apiOps (s : St) : Api → List Op
+def apiOps (o : Params) (s : St) : Api → List Op
   | .prepareWrite n v => if s.free < n then [.reloadR v] else []
   | .finishWrite n    => [.write n]
   | .commitWrite      => [.commitW]
   | .empty v          => if s.wcache = s.rpos then [.loadW v] else []
   | .prepareRead v    => if s.wcache = s.rpos then [.loadW v] else []
   | .finishRead n     => [.read n]
-  | .commitRead       => [.commitR]
+  | .commitRead       => [.commitR (publishes o s)]
+
+/-- `commit_read()` as the C++ performs it: the publication decision is `publishes` -/
+def cppCommitRead (o : Params) (s : St) : St := step o s (.commitR (publishes o s))
 
 /-- what the caller (or, for `commit_read`, the other thread through the atomic) observes -/
 def apiObs (o : Params) (s s' : St) : Api → Obs
@@ -47,7 +50,7 @@ def apiObs (o : Params) (s s' : St) : Api → Obs
   | .commitRead       => if publishes o s then .pub s.rpos else .nopub
 
 def absApi (o : Params) (s : St) (a : Api) : St × Obs :=
-  let s' := run o s (apiOps s a)
+  let s' := run o s (apiOps o s a)
   (s', apiObs o s s' a)
 
 /-! ## implementation layer: the fields of the C++ object, all values `< M` -/
@@ -97,9 +100,9 @@ def Obs.modM (M : Nat) : Obs → Obs
   | .pub v => .pub (v % M)
   | x => x
 
-/-- the `k`-th newest legal result of a load: any stored value not older than the cached one -/
+/-- the `k`-th newest distinct legal result of a load: any stored value not older than the cached one -/
 def pick (hist : List Nat) (cache k : Nat) : Nat :=
-  let legal := hist.filter (fun v => decide (cache ≤ v))
+  let legal := (hist.filter (fun v => decide (cache ≤ v))).eraseDups
   legal.getD (min k (legal.length - 1)) cache
 
 end Spsc
